@@ -522,11 +522,8 @@ func normalizeValue(
 	case reflect.Struct:
 		if v, ok := tryTConfig(v); ok {
 			c := v.Addr().Interface().(*Config)
-			ret := cfgSub{c}
-			if ret.Context().parent != ctx.parent {
-				ret.SetContext(ctx)
-			}
-			return ret, nil
+			// never re-parent a configuration owned by the caller: embed a copy
+			return cfgSub{c}.cpy(ctx), nil
 		}
 
 		return normalizeStructValue(opts, ctx, v)
